@@ -616,7 +616,9 @@ class Interp:
         elif hasattr(ast, 'Match') and isinstance(s, ast.Match):
             self._match_stmt(s)
         elif isinstance(s, ast.Nonlocal):
-            raise Unmodelled('nonlocal rebinding')
+            if getattr(self, 'nonlocal_env', None) is None:
+                raise Unmodelled('nonlocal rebinding outside a closure the interpreter created')
+            self.__dict__.setdefault('nonlocal_names', set()).update(s.names)
         elif isinstance(s, (ast.Import, ast.ImportFrom)):
             pass    # local imports: names are resolved through the module's import table
         elif isinstance(s, ast.Delete):
@@ -718,6 +720,10 @@ class Interp:
 
     def store(self, t, val):
         if isinstance(t, ast.Name):
+            if t.id in self.__dict__.get('nonlocal_names', ()):
+                self.nonlocal_env[t.id] = val        # the variable of the enclosing function (its live environment)
+                self.env[t.id] = val
+                return
             if t.id in self.global_names:
                 ref = self.a.res.resolve(t, self.m) or f'pkg:{self.m.name}:{t.id}'
                 self.world.globals[ref] = val
@@ -1658,6 +1664,8 @@ class Interp:
                      call_models=self.call_models, inline_pkg=self.inline_pkg, depth=self.depth + 1,
                      self_class=self_class or self.self_class, record_unknown=self.record_unknown, scope_fn=fnode, world=self.world)
         sub.scopes = [fnode] + (self.scopes if closure else [])
+        if closure:
+            sub.nonlocal_env = self.env          # invoke() has made the closure's defining environment current
         sub.dunder_truth = self.dunder_truth
         sub.def_class = self.def_class if closure else self._def_class_of(om, fnode)
         sub.first_param = self.first_param if closure else first
